@@ -22,7 +22,7 @@ RULE = ("(genuine frame, mutation, receiver history) triples; distinct by hash o
 ASSUMPTIONS = ["a mutation that leaves the decoded secured structure (signed data, signer, signature) identical is 'equivalent' and may be delivered (encoding slack, trailing octets, unsigned basic header)",
                "exceptions raised by the receive path count as 'not delivered' here (C04 decides their effect on the loop)",
                "python-ecdsa is trusted"]
-REQUIRED_COUNTERS = ["frames_injected", "must_not_deliver_checked", "equivalent_mutations", "genuine_delivered", "bitflips", "structure_mutations", "attacker_chain_frames", "unsecured_frames"]
+REQUIRED_COUNTERS = ["frames_injected", "must_not_deliver_checked", "equivalent_mutations", "genuine_delivered", "bitflips", "structure_mutations", "attacker_chain_frames", "unsecured_frames", "insider_frames", "attacker_frames_judged_after_insider_frames"]
 
 LAT, LON = 415000000, 21000000
 
@@ -212,6 +212,31 @@ def attacker_frames(clock, G, A, genuine, rng):
     return out
 
 
+def insider_frames(G, A, genuine):
+    """Authentic frames of a station that holds a valid ticket (G.ats[2]) but is hostile: their SIGNED header carries
+    certificates the attacker wants the receiver to learn (requestedCertificate = rogue root / rogue AA / rogue ticket)
+    or certificate requests.  They may be delivered (they are authentic); what they must never do is make frames
+    signed under the attacker's chain acceptable afterwards."""
+    from flexstack.security.certificate import SECURITY_CODER
+    lab, g = next((l, f) for l, f in genuine if l.startswith("cam"))
+    base = SECURITY_CODER.decode_etsi_ts_103097_data_signed(g[4:])
+    out = []
+    for name, extra in (("requestedCertificate=attacker-root", {"requestedCertificate": A.root.certificate}),
+                        ("requestedCertificate=attacker-aa", {"requestedCertificate": A.aa.certificate}),
+                        ("requestedCertificate=attacker-ticket", {"requestedCertificate": A.ats[0].certificate}),
+                        ("inlineP2pcdRequest=attacker-digests", {"inlineP2pcdRequest": [A.aa.as_hashedid8()[-3:], A.ats[0].as_hashedid8()[-3:], A.root.as_hashedid8()[-3:]]})):
+        d = copy.deepcopy(base)
+        sdd = d["content"][1]
+        sdd["tbsData"]["headerInfo"].update(copy.deepcopy(extra))
+        sdd["signer"] = ("certificate", [G.ats[2].certificate])
+        try:
+            sdd["signature"] = G.ats[2].sign_message(G.backend, SECURITY_CODER.encode_to_be_signed_data(sdd["tbsData"]))
+            out.append((f"insider:{name}", g[:4] + SECURITY_CODER.encode_etsi_ts_103097_data_signed(d)))
+        except Exception:  # noqa  not encodable with this ASN.1 module: not a frame
+            pass
+    return out
+
+
 def unsecured_frames(clock):
     from vf.gnharness import mid_of
     from vf.vclock import tst_of
@@ -289,6 +314,12 @@ def run_shard(spec, res):
             muts += uf
             res.count("unsecured_frames", len(uf))
             rng.shuffle(muts)
+            # authentic frames of a hostile ticket holder, first and in between: they must not widen what is trusted
+            ins = insider_frames(G, A, genuine)
+            if ins and rng.random() < 0.7:
+                for k_ in sorted(rng.sample(range(len(muts) // 2 + 1), min(len(ins), len(muts) // 2 + 1))):
+                    muts.insert(k_, rng.choice(ins))
+                muts[0:0] = ins if rng.random() < 0.6 else []
             # interleave genuine frames to keep the history mixed and to confirm the receiver still works
             for k, (mlab, frame) in enumerate(muts):
                 if k % 40 == 17:
@@ -301,6 +332,12 @@ def run_shard(spec, res):
                 if frame in gset:
                     deliver(frame)
                     continue
+                if mlab.startswith("insider:"):
+                    d = deliver(frame)
+                    res.count("insider_frames")
+                    if d[0]:
+                        res.count("insider_frames_delivered")
+                    continue
                 md = decode_sec(frame)
                 equivalent = md is not None and any(signed_view(md) == signed_view(x) for x in gdec.values())
                 d = deliver(frame)
@@ -309,6 +346,8 @@ def run_shard(spec, res):
                     res.count("equivalent_mutations")
                     continue
                 res.count("must_not_deliver_checked")
+                if mlab.startswith("attacker:") and any(l_.startswith("insider:") for l_, _ in muts[:k]):
+                    res.count("attacker_frames_judged_after_insider_frames")
                 res.case(frame + hist.encode())
                 if d[0] or d[1]:
                     kind = mlab.split(":")[0] if ":" not in mlab else mlab
@@ -320,6 +359,8 @@ def run_shard(spec, res):
                     if mlab in ("bitflip", "byte-substitution") and md is not None:
                         gv, mv = signed_view(gd), signed_view(md)
                         detail = "[differs-in=" + ",".join(n for n, a, b in zip(("choice", "tbsData", "signer", "signature"), gv, mv) if a != b) + "]"
+                    if mlab.startswith("attacker:") and any(l_.startswith("insider:") for l_, _ in muts[:k]):
+                        detail += "[after-authentic-frames-of-a-hostile-ticket-holder]"
                     res.violation(f"C03:forged-frame-delivered[{kind}]{where}{detail}",
                                   f"{mlab} of genuine {lab} frame was handed to upper layers ({d[0]} GN indications, {d[1]} BTP handler calls), receiver history {hist}", case)
             if rnd == 0:
